@@ -394,12 +394,23 @@ def exec_class(lines, inherit=False):
               "_prov = 'sm'"]
     src = "class R(StateMachine):\n" + "".join("    " + ln + "\n" for ln in lines + guards)
     if inherit:
-        src += "class R2(R):\n    pass\n"
+        src += ("BASE_BEFORE = [[(str(t.event), t.target.id) for t in s.transitions] "
+                "for s in R.states]\n"
+                "class R2(R):\n    pass\n"
+                "BASE_AFTER = [[(str(t.event), t.target.id) for t in s.transitions] "
+                "for s in R.states]\n")
     import warnings
     with warnings.catch_warnings():
         warnings.simplefilter("ignore")
         exec(src, ns)   # noqa: S102 - generated class body
+    if inherit and ns["BASE_BEFORE"] != ns["BASE_AFTER"]:
+        raise BaseMutated(f"defining `class R2(R): pass` changed the base class's transitions "
+                          f"from {ns['BASE_BEFORE']} to {ns['BASE_AFTER']}")
     return ns["R2" if inherit else "R"], src
+
+
+class BaseMutated(Exception):
+    pass
 
 
 def structure(cls):
@@ -535,9 +546,10 @@ def worker(block):
                   "events": [[n, [list(a) for a in ats], on] for (n, ats, on) in events],
                   "renderer": rname}
             _check_rendering(res, m, rname, lines, sc)
-            if rname == "canonical":
-                _check_rendering(res, m, "inherited", lines, dict(sc, renderer="inherited"),
-                                 inherit=True)
+            if rname in ("canonical", "from_.any-late", "from_.any-early", "decorator",
+                         "States.from_enum", "event=str"):
+                iname = "inherited" if rname == "canonical" else "inherited:" + rname
+                _check_rendering(res, m, iname, lines, dict(sc, renderer=iname), inherit=True)
         res.stats["states"] += 1
     if lo == 0:
         st, ev = abstract_machines(tier)[5]
@@ -553,6 +565,10 @@ def _check_rendering(res, m, rname, lines, sc, inherit=False):
         with deadline(60):
             try:
                 cls, src = exec_class(lines, inherit)
+            except BaseMutated as e:
+                res.violation({"category": "base-class-mutated-by-subclass-definition",
+                               "renderer": rname}, sc, f"[{rname}] {e}\n" + "\n".join(lines))
+                return
             except Exception as e:   # noqa: BLE001
                 res.violation({"category": "class-statement", "renderer": rname}, sc,
                               f"[{rname}] class statement raised {type(e).__name__}: {e}\n" +
@@ -612,6 +628,9 @@ def replay(sc):
         rn = sc["renderer"]
         if rn == "inherited":
             _check_rendering(res, m, rn, r_canonical(states, events), sc, inherit=True)
+        elif rn.startswith("inherited:"):
+            _check_rendering(res, m, rn, dict(RENDERERS)[rn.split(":", 1)[1]](states, events), sc,
+                             inherit=True)
         else:
             _check_rendering(res, m, rn, dict(RENDERERS)[rn](states, events), sc)
     return res.violations[0]["message"] if res.violations else None
